@@ -91,6 +91,7 @@ type Interp struct {
 	depth    int
 	curFrame *frame
 	sc       schedState
+	syncMaps map[*Value]*Map
 
 	funcsRun map[*ssa.Function]int64
 	builtPkgs map[*ssa.Package]bool
@@ -127,6 +128,7 @@ func (in *Interp) resetPath(prefix []Decision) {
 	in.depth = 0
 	in.curFrame = nil
 	in.schedReset()
+	in.syncMaps = nil
 }
 
 func (in *Interp) replaying() bool { return len(in.trace) < len(in.prefix) }
@@ -909,6 +911,15 @@ func (in *Interp) visitInstr(fr *frame, instr ssa.Instruction) continuation {
 		*addr = in.zero(deref(instr.Type()))
 
 	case *ssa.MakeSlice:
+		// a symbolic size: can it exceed the allocation bound?  (input-controlled allocation is an outcome of its own)
+		for _, sz := range []ssa.Value{instr.Len, instr.Cap} {
+			if t, ok := fr.get(sz).(*Term); ok && !t.IsConst() {
+				big := in.tt.Cmp(OpBvSlt, in.tt.Const(t.w, uint64(in.ex.cfg.MaxAlloc)), t)
+				if in.forkBool(big) {
+					panic(pathEnd{kind: "alloc", msg: fmt.Sprintf("make slice whose size is input-controlled beyond %d elements at %s", in.ex.cfg.MaxAlloc, in.pos(instr))})
+				}
+			}
+		}
 		n := in.concInt(fr.get(instr.Len))
 		c := in.concInt(fr.get(instr.Cap))
 		if n < 0 || c < n {
